@@ -280,32 +280,35 @@ def _strip_breaks(blk):
 
 
 def period_rules(R, lib, f, arms, now_var, ob):
-    def elapsed_of(blk, field):
-        """variable defined as now - field, or the expression itself."""
-        for s in blk:
-            if s.k == 'decl' and s.a[2] is not None:
-                v = s.a[2]
-                while v.k == 'cast':
-                    v = v.a[2]
-                if v.k == 'bin' and v.a[0] == '-' and path_of(v.a[1]) == now_var and path_of(v.a[2]) == field:
-                    return s.a[0]
-        return None
+    def uncast(v):
+        """strip value-preserving casts of a millisecond count (32 bits or wider); a narrower cast is kept and defeats the match."""
+        while v.k == 'cast' and isinstance(v.a[0], int) and v.a[0] >= 32:
+            v = v.a[2]
+        return v
+
+    def is_elapsed(blk, e, field):
+        """e is `now - field`, written in place or through a local of the arm defined as that difference (not narrowed)."""
+        e = uncast(e)
+        if e.k == 'var':
+            for b in walk_stmts(blk):
+                if b.k == 'decl' and b.a[0] == e.a[0] and b.a[2] is not None:
+                    it = int_type(b.a[1])
+                    if it is None or it[0] < 32:
+                        return False
+                    e = uncast(b.a[2])
+        return e.k == 'bin' and e.a[0] == '-' and path_of(uncast(e.a[1])) == now_var and path_of(uncast(e.a[2])) == field
     for state, field in (('kStatusOk', 'this.mLastSyncMillis'), ('kStatusWaitForRetry', 'this.mRequestStartMillis')):
         blk = arms.get(state, [])
         c = '%s::loop:%s:wait' % (SCL, state)
-        ev = elapsed_of(blk, field)
         ok, why = False, 'the arm does not measure %s - %s' % (now_var, field.replace('this.', ''))
-        if ev is not None:
-            for s in blk:
-                if s.k == 'if':
-                    cnd = s.a[0]
-                    while cnd.k == 'cast':
-                        cnd = cnd.a[2]
-                    if cnd.k == 'bin' and cnd.a[0] in ('>=', '>') and path_of(cnd.a[1]) == ev:
-                        p = Canon(fold_global=lib.global_value)(cnd.a[2])
-                        want = Poly.atom(('sym', 'this.mCurrentSyncPeriodSeconds')) * Poly.const(1000)
-                        ok = p == want
-                        why = 'elapsed milliseconds are compared with %r, expected mCurrentSyncPeriodSeconds * 1000' % p
+        for s in walk_stmts(blk):
+            if s.k == 'if':
+                cnd = uncast(s.a[0])
+                if cnd.k == 'bin' and cnd.a[0] in ('>=', '>') and is_elapsed(blk, cnd.a[1], field):
+                    p = Canon(fold_global=lib.global_value)(cnd.a[2])
+                    want = Poly.atom(('sym', 'this.mCurrentSyncPeriodSeconds')) * Poly.const(1000)
+                    ok = p == want
+                    why = 'elapsed milliseconds are compared with %r, expected mCurrentSyncPeriodSeconds * 1000' % p
         ob('R5', c, f.loc, ok, why)
     # request timeout in the sent state
     blk = arms.get('kStatusSent', [])
@@ -320,17 +323,7 @@ def period_rules(R, lib, f, arms, now_var, ob):
                 while r.k == 'cast':
                     r = r.a[2]
                 if path_of(r) == 'this.mRequestTimeoutMillis':
-                    l = cnd.a[1]
-                    while l.k == 'cast':
-                        l = l.a[2]
-                    lv = path_of(l)
-                    ok = False
-                    for b in walk_stmts(blk):
-                        if b.k == 'decl' and b.a[0] == lv and b.a[2] is not None:
-                            v = b.a[2]
-                            while v.k == 'cast':
-                                v = v.a[2]
-                            ok = v.k == 'bin' and v.a[0] == '-' and path_of(v.a[1]) == now_var and path_of(v.a[2]) == 'this.mRequestStartMillis'
+                    ok = is_elapsed(blk, cnd.a[1], 'this.mRequestStartMillis')
                     why = 'the timeout is not measured from mRequestStartMillis'
     ob('R5', '%s::loop:kStatusSent:timeout' % SCL, f.loc, ok, why)
     # the response is looked at before the timeout decides: a request is only given up on a path where
@@ -499,4 +492,22 @@ SELFTEST = [
     dict(id='backup-even-when-same-clock', file='src/ace_time/clock/SystemClock.h',
          find='      if (mBackupClock != mReferenceClock) {\n        backupNow(epochSeconds);\n      }', replace='      backupNow(epochSeconds);', rule='R6'),
     dict(id='request-start-not-recorded', file='src/ace_time/clock/SystemClockLoop.h', find='          mRequestStartMillis = nowMillis;\n', replace='', rule='R7'),
+    dict(id='retry-wait-narrowed-to-16-bits', file='src/ace_time/clock/SystemClockLoop.h', unique=False, nth=1,
+         find='unsigned long waitMillis = nowMillis - mRequestStartMillis;', replace='uint16_t waitMillis = nowMillis - mRequestStartMillis;', rule='R5'),
+    dict(id='sync-wait-narrowed-in-place', file='src/ace_time/clock/SystemClockLoop.h',
+         find='if (millisSinceLastSync >= mCurrentSyncPeriodSeconds * 1000UL) {', replace='if ((uint16_t) millisSinceLastSync >= mCurrentSyncPeriodSeconds * 1000UL) {', rule='R5'),
+    # behaviour-preserving rewrites: the rules must stay quiet
+    dict(id='success-statements-reordered-silent', file='src/ace_time/clock/SystemClockLoop.h',
+         find='              mCurrentSyncPeriodSeconds = mSyncPeriodSeconds;\n              mLastSyncMillis = nowMillis;',
+         replace='              mLastSyncMillis = nowMillis;\n              mCurrentSyncPeriodSeconds = mSyncPeriodSeconds;', expect='silent'),
+    dict(id='validity-test-inverted-silent', file='src/ace_time/clock/SystemClockLoop.h',
+         find='            if (nowSeconds == kInvalidSeconds) {\n              mRequestStatus = kStatusWaitForRetry;\n            } else {\n              syncNow(nowSeconds);\n              mCurrentSyncPeriodSeconds = mSyncPeriodSeconds;\n              mLastSyncMillis = nowMillis;\n              mRequestStatus = kStatusOk;\n            }',
+         replace='            if (nowSeconds != kInvalidSeconds) {\n              syncNow(nowSeconds);\n              mCurrentSyncPeriodSeconds = mSyncPeriodSeconds;\n              mLastSyncMillis = nowMillis;\n              mRequestStatus = kStatusOk;\n            } else {\n              mRequestStatus = kStatusWaitForRetry;\n            }', expect='silent'),
+    dict(id='timeout-difference-inlined-silent', file='src/ace_time/clock/SystemClockLoop.h',
+         find='            unsigned long waitMillis = nowMillis - mRequestStartMillis;\n            if (waitMillis >= mRequestTimeoutMillis) {',
+         replace='            if ((unsigned long) (nowMillis - mRequestStartMillis) >= mRequestTimeoutMillis) {', expect='silent'),
+    dict(id='period-factor-commuted-silent', file='src/ace_time/clock/SystemClockLoop.h',
+         find='if (millisSinceLastSync >= mCurrentSyncPeriodSeconds * 1000UL) {', replace='if (millisSinceLastSync >= 1000UL * mCurrentSyncPeriodSeconds) {', expect='silent'),
+    dict(id='backoff-doubling-spelled-out-silent', file='src/ace_time/clock/SystemClockLoop.h',
+         find='              mCurrentSyncPeriodSeconds *= 2;', replace='              mCurrentSyncPeriodSeconds = mCurrentSyncPeriodSeconds * 2;', expect='silent'),
 ]
